@@ -560,6 +560,20 @@ Section Histories.
     | [] => Some st
     | i :: r => match mstep st i with Some st' => mrun st' r | None => None end
     end.
+  Fixpoint explore_m (fuel : nat) (st : mstate) : list mstate :=
+    match fuel with
+    | O => []
+    | S f =>
+        let nexts := flat_map (fun i => match mstep st i with Some st' => [st'] | None => [] end)
+                              (seq 0 (length (ms_thr st))) in
+        match nexts with
+        | [] => [st]
+        | _ => flat_map (explore_m f) nexts
+        end
+    end.
+
+  Definition mthread_results (st : mstate) : list (option (option rerr)) :=
+    map (fun t => match m_pc t with MDone r => Some r | _ => None end) (ms_thr st).
 End Histories.
 
 (* ------------------------------------------------------------------ cas.Proxy *)
